@@ -5,9 +5,10 @@ PID = "C11"
 def _key(v):
     m = re.match(r"n=(\d+) .* seq=(\S+) .* hooklog=\[([^\]]*)\]", v[1])
     if not m:
-        return (v[0], 99, 99, 99)
+        return (v[0], 99, 99, 99, 99)
     seq = m.group(2)
-    return (v[0], int(m.group(1)), 5 if seq.startswith("FRONTEND") else (0 if seq == "<none>" else seq.count(",") + 1), len(m.group(3)))
+    odd = v[1].count("x}") + v[1].count("n,") + v[1].count("cfg=missing")
+    return (v[0], int(m.group(1)), 5 if seq.startswith("FRONTEND") else (0 if seq == "<none>" else seq.count(",") + 1), len(m.group(3)), odd)
 
 
 def main(tier, args):
@@ -16,10 +17,10 @@ def main(tier, args):
                    vf.module_sources("main/module.cpp", "util/variables.cpp"), mode="asan",
                    plain_srcs=[vf.VERIF + "/engine/sched/log_stub.cpp"])
     # nmax nodes, depth of root-call sequences, cross-check (plain enumeration of all sequences) up to xn nodes
-    nmax, depth, xn, dl, parts = (4, 4, 3, 45, 16) if tier == "quick" else (5, 6, 3, 1200, 64)
+    nmax, depth, xn, xd, dl, parts = (4, 4, 3, 4, 45, 16) if tier == "quick" else (5, 8, 3, 6, 1200, 64)
     res = vf.Result()
     log = open(vf.BUILD + "/C11/log.txt", "w")
-    cmds = [("part%02d" % k, [exe, "bfs", str(nmax), str(depth), str(k), str(parts), str(xn)]) for k in range(parts)]
+    cmds = [("part%02d" % k, [exe, "bfs", str(nmax), str(depth), str(k), str(parts), str(xn), str(xd)]) for k in range(parts)]
     if args.only:
         cmds = [c for c in cmds if c[0] == args.only]
     vf.run_procs(res, cmds, env={"VERIF_DEADLINE_S": str(dl)}, log=log)
@@ -37,9 +38,9 @@ def main(tier, args):
                    "per program BFS over all root call sequences over {initialize,start,stop,cleanup} of length<=%d with canonical-state "
                    "dedup (state_ of every node + per-node hook automaton, also of the optional-subtree-removed programs), every history "
                    "finished by cleanup()+delete and by delete only, plus the run_in_frontend/run_in_backend call order; dedup "
-                   "cross-checked by plain enumeration of all sequences for trees <=%d nodes; oracle on the probe hook log: pre-order "
+                   "cross-checked by plain enumeration of all sequences of length<=%d for trees <=%d nodes; oracle on the probe hook log: pre-order "
                    "init/start, exact reverse stop/cleanup per root call, per-module hook automaton, balance after cleanup+destroy, "
-                   "optional failing subtree leaves outside hooks identical to the program without it; ASan/UBSan" % (nmax, depth, xn),
+                   "optional failing subtree leaves outside hooks identical to the program without it; ASan/UBSan" % (nmax, depth, xd, xn),
               assumptions=["a module's hook result is fixed per program (ok / init hook fails / start hook fails), not per call",
                            "balance is judged only for histories ending with an explicit cleanup() before destruction (DESIGN 1.7); "
                            "the frontend order with failing initialize() (no cleanup() call) is judged for ordering only",
